@@ -254,6 +254,8 @@ def observe(impl, lay, cpv, files):
 
 
 def trace_ops(trace, root):
+    """successful mutating calls; a run of consecutive writes to one path becomes one item
+    ["write", path, all data, number of calls] (the model checks one call per character)"""
     out = []
     for t in trace:
         if not t.ok:
@@ -262,7 +264,12 @@ def trace_ops(trace, root):
         if t.kind in ("create", "mkdir", "chmod"):
             out.append([t.kind, p[0], t.args[1]])
         elif t.kind == "write":
-            out.append(["write", p[0], t.args[2].decode("utf8", "surrogateescape")])
+            data = t.args[2].decode("utf8", "surrogateescape")
+            if out and out[-1][0] == "write" and out[-1][1] == p[0]:
+                out[-1][2] += data
+                out[-1][3] += 1
+            else:
+                out.append(["write", p[0], data, 1])
         elif t.kind == "chown":
             out.append(["chown", p[0], None if t.args[2] == -1 else t.args[2]])
         elif t.kind == "rename":
@@ -382,7 +389,7 @@ def _run(chk, rng, root, ok):
 
     # ---------------------------------------------------------------- ops / crash
     ops_cases, crash_cases, crash_bad = [], [], []
-    n_store = chk.n(6, 36)
+    n_store = chk.n(6, 24)
     per_store = chk.n(20, 10 ** 6)
     pid = os.getpid()
     for i in range(n_store):
